@@ -96,7 +96,12 @@ def replay_states(ctx, states, r):
                         f'term={list(c["term"])} trunc={list(c["trunc"])}: vs {vs[:, j].tolist()} vs {want_vs}; '
                         f'adv {adv[:, j].tolist()} vs {want_adv}', case, {'call': 'compute_gae', 'predicate': 'value'})
       if nb % 25 == 0:
-        g = grad(rw, v, boot, trunc, term, dy(lam), dy(gam))
+        try:
+          g = grad(rw, v, boot, trunc, term, dy(lam), dy(gam))
+        except Exception as e:  # the code under test failed: a verdict, not a machinery error
+          ctx.violation(f'differentiating compute_gae raised for T={T} lambda={dy(lam)} discount={dy(gam)}: {type(e).__name__}: {str(e)[:200]}',
+                        {'T': T, 'B': B, 'lambda': dy(lam), 'discount': dy(gam)}, {'call': 'compute_gae', 'predicate': 'raised'})
+          continue
         if any(np.any(np.asarray(x) != 0) for x in g):
           ctx.violation('compute_gae outputs carry gradient w.r.t. rewards/values/bootstrap',
                         {'T': T, 'B': B, 'grads': [np.asarray(x).tolist() for x in g]},
